@@ -55,7 +55,7 @@ func main() {
 
 	// layer 2 runs beside layer 1 (it is mostly waiting on Raft round trips)
 	var wg sync.WaitGroup
-	ne := r.Pick(1, 10)
+	ne := r.Pick(2, 20)
 	wg.Add(1)
 	go func() {
 		defer wg.Done()
@@ -64,7 +64,7 @@ func main() {
 		}
 	}()
 
-	n := r.Pick(3000, 300000)
+	n := r.Pick(12000, 1000000)
 	workers := runtime.NumCPU() / 2
 	if workers < 1 {
 		workers = 1
@@ -88,11 +88,11 @@ func main() {
 	close(ch)
 	wg.Wait()
 
-	r.FloorNontrivial(int64(r.Pick(300, 30000)))
-	r.FloorCount("l1_queries", int64(r.Pick(30000, 3000000)))
-	r.FloorCount("l1_answers_partly_cache_partly_log", int64(r.Pick(1000, 100000)))
-	r.FloorCount("l1_queries_after_compaction", int64(r.Pick(5000, 500000)))
-	r.FloorCount("l2_replicate_calls", int64(r.Pick(500, 5000)))
+	r.FloorNontrivial(int64(r.Pick(1500, 30000)))
+	r.FloorCount("l1_queries", int64(r.Pick(100000, 3000000)))
+	r.FloorCount("l1_answers_partly_cache_partly_log", int64(r.Pick(10000, 300000)))
+	r.FloorCount("l1_queries_after_compaction", int64(r.Pick(50000, 1500000)))
+	r.FloorCount("l2_replicate_calls", int64(r.Pick(2000, 10000)))
 	r.FloorCount("l2_commands_checked", int64(r.Pick(200, 2000)))
 	r.FloorCount("l2_expect_use_snapshot", int64(r.Pick(100, 1000)))
 	r.FloorCount("l2_expect_leader_behind", int64(r.Pick(20, 200)))
